@@ -67,6 +67,19 @@ func judgeC04(c *Ctx, sc *Scenario) *Violation {
 	if err := json.Unmarshal(sc.Extra, &ex); err != nil {
 		harnessFail("C04 scenario without extra: %v", err)
 	}
+	if sc.Real {
+		// self-build over a real tree that already holds (damaged, newer) outputs: every one must come out as into
+		// an empty tree
+		rr := RunReal(c.B.FcOff, sc, c.Work)
+		for _, p := range sortedKeys(c04Gen1Raw) {
+			got, ok := rr.Changed[p]
+			if rr.Exit != 0 || !ok || !bytes.Equal(got, c04Gen1Raw[p]) {
+				return &Violation{Class: "real-disk", Signature: "C04:" + ex.Stage + ":" + p,
+					Detail: fmt.Sprintf("over a tree that already holds damaged generated files newer than the sources, the shipped fc (exit %d) leaves %s different from what it generates into an empty tree", rr.Exit, p)}
+			}
+		}
+		return nil
+	}
 	r := c.sim(c04Binary(c, sc, &ex), sc)
 	return c04Oracle(sc, &ex, r)
 }
@@ -410,6 +423,38 @@ func checkC04(tier string) {
 			}
 		}
 		c.count("shipped_binary_runs", 1)
+		// the same over a tree that already holds outputs, damaged and newer than the sources (an interrupted
+		// regeneration, a hand-edited generated file): every one of them must be repaired
+		if c04Gen1Raw != nil {
+			sc2 := self.scenario("C04", c.Seed, -4)
+			for i, p := range sortedKeys(c04Gen1Raw) {
+				b := c04Gen1Raw[p]
+				switch i % 3 {
+				case 0:
+					sc2.Disk.Put(p, b[:len(b)/2], "torn output of an interrupted run")
+				case 1:
+					sc2.Disk.Put(p, append(append([]byte{}, b...), []byte("\n// stray edit\n")...), "hand-edited output")
+				default:
+					sc2.Disk.Put(p, []byte("// output of an older compiler\npackage main\n"), "old output")
+				}
+			}
+			rr2 := RunReal(c.B.FcOff, sc2, c.Work)
+			c.count("shipped_binary_runs", 1)
+			for _, p := range sortedKeys(c04Gen1Raw) {
+				got, ok := rr2.Changed[p]
+				if rr2.Exit != 0 || !ok || !bytes.Equal(got, c04Gen1Raw[p]) {
+					b, _ := json.Marshal(c04Extra{Stage: "self-build-over-damaged-outputs", Generation: 1})
+					sc2.Extra = b
+					sc2.Real = true
+					path := filepath.Join(verifDir, "replays", fmt.Sprintf("C04-%d-damaged-outputs.json", int64(c.Seed)))
+					saveScenario(path, sc2)
+					fmt.Printf("violation class=real-disk signature=C04:self-build-over-damaged-outputs:%s\nover a tree that already holds damaged generated files newer than the sources, the shipped fc (exit %d) leaves %s different from what it generates into an empty tree (repaired: %v)\n", p, rr2.Exit, p, ok)
+					fmt.Printf("VIOLATION property=C04 replay=%s\n", path)
+					violations++
+					break
+				}
+			}
+		}
 	}
 
 	c.phase("reporting")
